@@ -154,6 +154,37 @@ def model_check(chk, nthreads, maxjobs, locking):
     return r
 
 
+CALLS_CFG = """CONSTANTS Scoped = %s
+ Table = %s
+ Threads = %s
+SPECIFICATION Spec
+INVARIANT TypeOK
+INVARIANT Safe
+%sCHECK_DEADLOCK FALSE
+"""
+
+
+def calls_design_level(chk):
+    """spec/CallsMC.tla: outside the dispatch path a call shares nothing but the interpreter-wide budget it only reads -
+    Safe for all interleavings; with a scoped interpreter setting or a grow-on-demand module table TLC must find
+    the interleaving that breaks Safe (design-level canaries)."""
+    r = common.run_tlc('CallsMC', CALLS_CFG % ('FALSE', 'FALSE', '{1, 2, 3}', 'INVARIANT Restored\nINVARIANT TableOK\n'),
+                       os.path.join(chk.workdir, 'calls0'), workers=4, heap='1g', deadlock=True)
+    chk.add_tlc(r)
+    chk.stage('tlc.model-check CallsMC', scoped=False, table=False, states=r.distinct, safe=not r.invariant_violated)
+    if r.invariant_violated:
+        tail = '\n'.join(r.out.splitlines()[-40:])
+        chk.machinery_error('CallsMC (no shared state) violates an invariant\n' + tail)
+    for scoped, table, threads in (('TRUE', 'FALSE', '{1, 2}'), ('FALSE', 'TRUE', '{1, 3}')):
+        rc = common.run_tlc('CallsMC', CALLS_CFG % (scoped, table, threads, ''),
+                            os.path.join(chk.workdir, 'calls' + scoped[0] + table[0]), workers=4, heap='1g', deadlock=True)
+        chk.cov['canaries_total'] += 1
+        if rc.invariant_violated and 'Invariant Safe is violated' in rc.out:
+            chk.cov['canaries_rejected'] += 1
+        else:
+            chk.machinery_error('CallsMC with Scoped=%s Table=%s did not exhibit the interference' % (scoped, table))
+
+
 LAYOUT_FUNCS = {'best_layout', 'smart_fitting_predicate', 'fast_fitting_predicate', 'normalize', 'when_broken',
                 'when_flat', 'normalize_doc'}
 CC_CFG = "INIT Init\nNEXT Next\nINVARIANT Report\nCHECK_DEADLOCK FALSE\n"
@@ -460,6 +491,7 @@ def check_c20(chk, args):
                     locking, m['programs'], m['preemption_plan'],
                     [(e['t'], e['ev'], e['res']) for e in c['events']]))
         chk.stage('tlc.validate', threads=n, traces=len(cases), states=st['distinct'])
+    calls_design_level(chk)
     nsched += layout_path_scenario(chk)
     nsched += registry_path_scenario(chk)
     nsched += overlap_scenario(chk)
